@@ -1,9 +1,14 @@
 (* C19 — the two backends assembled from the generated pieces, runs of operation sequences, and the encoding
    of a run's observables as numbers for the checker.  No proofs here. *)
-From Coq Require Import ZArith List Bool.
+From Coq Require Import ZArith List Bool Uint63.
 Import ListNotations.
 Open Scope Z_scope.
 From YV Require Import model.AtomicCSem model.AtomicStd gen.Gen_fiber_atomic.
+
+(* Numbers in the terms the checker writes: two 32-bit halves as primitive integers (Coq parses decimal Z
+   literals slowly; primitive literals are parsed natively).  Used only for evaluating harness sequences. *)
+Definition zu (hi lo : int) : Z := Uint63.to_Z hi * 4294967296 + Uint63.to_Z lo.          (* unsigned 64-bit *)
+Definition zs (hi lo : int) : Z := let u := zu hi lo in if 9223372036854775808 <=? u then u - 18446744073709551616 else u.
 
 (* yaclib_std::atomic<T> = detail::Atomic<Impl, T> (fault/detail/atomic.hpp) with
      Impl = fiber::Atomic<T>   in the FIBER backend  (yaclib_std/detail/atomic.hpp:10)
